@@ -60,7 +60,14 @@ HookOpen(st, f) == ~HooksOn(st) \/ f.hook = "open"
 Registered(st, s, e) == e \in DOMAIN st.entry[s]
 
 Allowed(st, ev) ==
-  CASE ev.e = "reg" -> Len(st.stack) = 0 \/ Top(st).k = "cb"
+  CASE ev.e = "reg" ->
+         /\ Len(st.stack) = 0 \/ Top(st).k = "cb"
+         \* a registration is refused only for a function that is registered already (the harness
+         \* never exceeds the backend's number of entry points)
+         /\ ("out" \in DOMAIN ev =>
+               (ev.out = "ok" \/ \E x \in DOMAIN st.entry[ev.s] : st.entry[ev.s][x] = ev.f))
+    \* the harness occupies all but two entry points of the backend with callbacks nobody calls
+    [] ev.e = "fill" -> ev.out = "ok"
     [] ev.e = "unreg" -> TRUE
     \* the sandbox object is destroyed and created again (owners of the old incarnation live on):
     \* no registration of the earlier incarnation is visible in the new one
